@@ -128,6 +128,26 @@ def prove(cond, name):
     except core_Undecided as e:
         unpoison(e)
         ok_model = True  # (integer-valued atoms without a native evaluator: the native replay is the judge)
+    if ok_model and len(rel) < len(C.pc_other):
+        # the completed model has to satisfy the WHOLE path condition, not only the facts that share support with the clause:
+        # the other facts can bear on it through the solved forms of eliminated atoms.  If it does not, ask again with every fact.
+        try:
+            whole = all(_pe(q, chk) for q in C.pc_other)
+        except core_Undecided as e:
+            unpoison(e)
+            whole = True
+        if not whole:
+            st2, env2 = solve(list(C.pc_other) + [pnot(p)], want_model=True)
+            if st2 == "unsat":
+                LOG.append((name, be, time.time() - t0))
+                return be
+            full = complete_model(env2, list(C.pc_other))
+            chk = {a: v for a, v in full.items() if not isinstance(a, int) or (a not in C.gates and a not in C.subst)}
+            try:
+                ok_model = not _pe(p, chk) and all(_pe(q, chk) for q in C.pc_other)
+            except core_Undecided as e:
+                unpoison(e)
+                ok_model = True
     if not ok_model:
         if os.environ.get("PYVC_DEBUG"):
             print("INCONSISTENT MODEL from back end", be, "clause", name, "clause value", _pe(p, dict(full)), "violated constraints", [i for i, q in enumerate(rel) if not _pe(q, dict(full))][:5], "of", len(rel))
